@@ -299,7 +299,8 @@ def main(check_factory, argv=None):
                 seen_clauses[clause] = seen_clauses.get(clause, 0) + 1
                 case = explicit_schedules(check, ctx, violation, clause)
                 spent = 0
-                if not args.no_minimise:
+                # (a hang costs a whole wall-clock backstop per candidate: reported as found, not minimised)
+                if not args.no_minimise and "timeout" not in confirmed["detail"]:
                     case, spent = minimise(check, ctx, case, clause)
                 final = same_violation(check.judge(ctx, case)["violations"], clause)
                 name = "%s-seed%d-run%d" % (clause.replace(" ", "_").replace("/", "_")[:40], args.seed, violation["run_index"])
